@@ -35,10 +35,13 @@ Spec == Init /\ [][Next]_c
 IsSpecial == "special" \in DOMAIN c
 Inv_Agrees == (c.s = 0 /\ ~IsSpecial) => (ExtValid(c.kind, c.i, 0, c.e) <=> Valid(c.kind, [Base(c.kind) EXCEPT ![c.i] = 0]))
 Inv_BaseValid == Valid(c.kind, Base(c.kind))
+\* at the smallest subnormal half the parameter (the shape of the embedded gamma generator of T, ...) is no longer a positive
+\* number: whether such a value counts as valid is not fixed by the property; its word there is "alike" as well
+AtFloor == ~IsSpecial /\ c.s = 1 /\ c.e = 0 - 1074
 Emit == IF IsSpecial
         THEN LET sv == SpecialValid(c.kind, c.i, c.special) IN
              IF sv = "alike" THEN PrintT(<<"CASE", ToJson([fam |-> "extreme", kind |-> c.kind, i |-> c.i, s |-> 0, e |-> 0, special |-> c.special, base |-> Base(c.kind), valid |-> "alike"])>>)
              ELSE PrintT(<<"CASE", ToJson([fam |-> "extreme", kind |-> c.kind, i |-> c.i, s |-> 0, e |-> 0, special |-> c.special, base |-> Base(c.kind), valid |-> FALSE])>>)
         ELSE PrintT(<<"CASE", ToJson([fam |-> "extreme", kind |-> c.kind, i |-> c.i, s |-> c.s, e |-> c.e, base |-> Base(c.kind),
-                                      valid |-> ExtValid(c.kind, c.i, c.s, c.e)])>>)
+                                      valid |-> IF AtFloor /\ ExtValid(c.kind, c.i, c.s, c.e) THEN "alike" ELSE ExtValid(c.kind, c.i, c.s, c.e)])>>)
 =============================================================================
